@@ -39,6 +39,9 @@ type c20prog struct {
 	name string
 	src  string
 	demo bool
+	// before: programs evaluated, each in an interpreter of its own, between two runs of src in one process: what an
+	// earlier interpreter leaves behind in process-wide state must not change what a later one computes
+	before []string
 }
 
 // c20run creates a fresh interpreter (construction included in the seam) and evaluates src;
@@ -101,6 +104,8 @@ func c20alternatives(n int) []int {
 	return []int{1, 2, 3, 4}
 }
 
+var c20plainName = regexp.MustCompile(`^[A-Za-z_][A-Za-z0-9_]*$`) // names that can be written as one symbol in source text
+
 var c20exclude = regexp.MustCompile(`\(now\)|random|\(system|sleep|timeit|slurp|owrite|writef|setenv|getenv|\(source|\(import|\(include|\(req |gob|readline|stdin|\(exit|chan|go-|\(go |<!|send|\(rand|unixnano|\.zy"|tests/|millis|expectError`)
 
 func c20corpus() []c20prog {
@@ -142,6 +147,11 @@ func c20corpus() []c20prog {
 		`(list (- (symnum (quote int64)) (symnum (quote string))) (< (quote rune) (quote float64)) (- (symnum (quote bool)) (symnum (quote uint8))) (< (quote snoopy) (quote hornet)) (< (quote vall) (quote vinner)))`,
 		// a Go method returning a struct registered under two names, directly and held by value
 		`(def a (vall str:"x" v:(vinner s:"v" n:1))) (list (_method a MakeTwo:) (_method a HolderOfTwo:) (_method a MakeInner:) (_method a EchoSelf:))`,
+		// things an earlier interpreter of the process may leave behind: a refused encoding of self-containing data, a record
+		// type named like a function of the standard setup
+		`(raw2str (json (hash a: 1 b: [1 2])))`,
+		`(str (date "2017/12/25"))`,
+		`(list (str (dur "1h")) (first (list (eval (quote (+ 1 2))))))`,
 		// a record overwritten through a pointer: the target's field order is observable
 		`(struct Pt [(field w: int64 e:0) (field x: int64 e:1) (field y: int64 e:2) (field z: int64 e:3)]) (def a (Pt w: 1 x: 2 y: 3 z: 4)) (def p (& a)) (derefSet p (Pt z: 30 w: 40 x: 10 y: 20)) (list (str a) (keys a) (json a) (hpair a 0))`,
 		`(def h1 (hash q: 1 r: 2 s: 3 t: 4)) (def h2 (hash t: 9 s: 8 r: 7 q: 6 u: 5)) (def p (& h1)) (derefSet p h2) (list (str h1) (keys h1) (str (* p)))`,
@@ -156,6 +166,29 @@ func c20corpus() []c20prog {
 	}
 	for i, g := range gen {
 		ps = append(ps, c20prog{name: fmt.Sprintf("gen%02d", i), src: g, demo: true})
+	}
+	// process history: an earlier interpreter had an encoding refused / failed in other ways, or declared a record type
+	// named like something the standard setup binds
+	cyc := `(def cy [0]) (aset cy 0 cy) (def hc (hash a: 1)) (hset hc a: hc) `
+	ps = append(ps,
+		c20prog{name: "hist-json-after-refusal", src: `(list (raw2str (json (hash a: 1 b: [1 2 [3 [4]]]))) (unjson (json [1 [2 [3]]])) (unmsgpack (msgpack (hash k: [1]))))`, demo: true,
+			before: []string{cyc + `(json cy)`, cyc + `(msgpack hc)`, cyc + `(== cy cy)`, cyc + `(str (json hc))`}},
+		c20prog{name: "hist-compare-after-failures", src: `(list (== [1 [2 [3]]] [1 [2 [3]]]) (< 1 2) (== (list 1 2) (list 1 2)))`, demo: true,
+			before: []string{cyc + `(== cy cy)`, `(== 1 "a")`, cyc + `(< hc hc)`, `(== (list 1 2 3) (list "a" 2 3))`}},
+	)
+	{
+		zygo.VerifSetStepBudget(0)
+		env := zygo.NewZlisp()
+		env.StandardSetup()
+		for _, n := range env.VerifGlobalNames() {
+			v, _ := env.VerifGlobal(n)
+			if _, isFn := v.(*zygo.SexpFunction); !isFn || !c20plainName.MatchString(n) || c20exclude.MatchString("("+n+" ") {
+				continue
+			}
+			ps = append(ps, c20prog{name: "hist-type-named-" + n, src: `(list (type? ` + n + `) (str ` + n + `) (defined? (quote ` + n + `)))`, demo: false,
+				before: []string{`(defmap ` + n + `) (` + n + ` a: 1)`, `(def r (msgmap (quote ` + n + `) [(quote a) 1])) r`, `(struct ` + n + ` [(field a: int64 e:0)])`}})
+		}
+		env.Close()
 	}
 	return ps
 }
@@ -195,6 +228,16 @@ func c20one(c *engine.Ctx, pi int, p c20prog, pairs bool) {
 					viol("map-order-pair", base.points[i].site+"+"+base.points[j].site, fmt.Sprintf("program %s: reversing the maps at %s and %s changes the result", p.name, base.points[i].site, base.points[j].site))
 				}
 			}
+		}
+	}
+	if len(p.before) > 0 {
+		for _, b := range p.before {
+			c20run(c20prog{name: p.name + "/before", src: b, demo: p.demo}, nil)
+			c.Count("transitions", 1)
+		}
+		after := c20run(p, nil)
+		if after.obs() != base.obs() {
+			viol("after-earlier-interpreter", p.name, fmt.Sprintf("program %s gives a different result after other interpreters of the process evaluated %q:\n--- before:\n%s\n--- after:\n%s", p.name, p.before, clipS(base.obs(), 500), clipS(after.obs(), 500)))
 		}
 	}
 	// earlier interpreters in the same process must not matter: run again now (this process has run others) and in a fresh process
